@@ -90,15 +90,16 @@ _EXTRA = {
     "C01": "; object / population histories (path reassigned, re-configured copy, shared filter dictionary, files arriving between queries)",
     "C02": "; object histories (placeholders set late, re-configured copy, time_coverage re-assigned after a look-up), explicit template= checks",
     "C03": "; concurrent-call monitor on one tree; build buffer refilled after construction; all-covering partner files",
-    "C04": "; call histories on one Collocator (in-place updated inputs, grid reuse), threads option, inputs-unchanged monitor",
-    "C05": "; forced rare classes (fixed grid, midnight-crossing files, pre-binned file pairs), makedirs rendezvous of two workers",
+    "C04": "; call histories on one Collocator (in-place updated inputs, grid reuse), threads option, inputs-unchanged monitor, thresholds above one day",
+    "C05": "; forced rare classes (fixed grid, midnight-crossing files, pre-binned file pairs), makedirs rendezvous of two workers, period end on a file start",
     "C06": "; call-history monitor on query, build arrays refilled after construction",
     "C07": "; call-history monitor on every function (un-armed originals), inputs-unchanged monitor, keyword-call relation",
     "C08": "; call-history and concurrent-call monitors on every function, inputs-unchanged monitor, keyword-call relation",
     "C09": "; buffer-reuse call histories on every function, million-element arrays against piecewise evaluation, keyword spelling of rejected calls",
-    "C10": "; two filesets with different handlers in use at once; files= as list/tuple/generator/iterator/empty",
-    "C11": "; harness-side configuration record, failing-writer conservation step, single-file moves, per-call read arguments",
-    "C13": "; view-returning collapser with an order-free oracle, inputs-unchanged monitor",
+    "C10": "; two filesets with different handlers in use at once; files= as list/tuple/generator/iterator/empty; compressed fileset with an unreadable member",
+    "C11": "; harness-side configuration record, failing-writer conservation step, single-file moves, per-call read arguments, symlinked members",
+    "C12": "; explicit tmpdir on another file system",
+    "C13": "; view-returning collapser with an order-free oracle, inputs-unchanged monitor, per-part variables without the collocation dimension",
     "C14": "; call-history monitor, independent saturation model at the regime boundaries, first use of a fresh interpreter from 32 threads under per-statement delay injection",
     "C15": "; re-save / reload histories on live objects, C-locale restarts, surrogate paths",
     "C16": "; object / population histories (re-configured copy, date-like stray directories), handler-provided coverage, fixed name-order and direct-hit scenarios",
